@@ -400,6 +400,12 @@ func runDeep(c *eng.Ctx, s *subject) {
 		c.Violate(sigOf(ctor, "deep-copy-shares-memory", p), fmt.Sprintf("%s [%s]: %s of the original and %s of the copy are the same memory", s.Ctor, s.Cfg, r.o.path, r.c.path), nil)
 	}
 	c.Count("deep_copy_regions", int64(len(regionsOf(cp))))
+	// a deep copy is an object of its own also when it is grown in place: no slice of the copy may keep spare
+	// capacity that covers live elements of another of its slices (unless the original is built that way)
+	if ov := capOverlaps(cp); len(ov) > 0 && len(capOverlaps(o)) == 0 {
+		ctor, p := attribute(s.Ctor, ov[0])
+		c.Violate(sigOf(ctor, "deep-copy-spare-capacity-covers-another-row", p), fmt.Sprintf("%s [%s]: the spare capacity of %s in the copy overlaps the elements of another slice of the copy (%d such slices)", s.Ctor, s.Cfg, ov[0], len(ov)), nil)
+	}
 	if s.Work != nil {
 		ref := tryWork(s.Work, o)
 		got := tryWork(s.Work, cp)
